@@ -330,13 +330,16 @@ theorem ucalls_drill (c : Chart) (g : Cfg) : ∀ (fuel : Nat) (t : St) (tp : Lis
       · split at h
         · cases h
         · split at h
-          · split at h <;> cases h
           · cases h
-          · rename_i ip tp2 mx2 k3 hcl
-            have h1 := ucalls_climb _ _ _ _ _ _ _ _ _ _ _ hcl
-            rw [ih _ _ _ _ _ h, ucalls_enterDown]
-            simp only at h1 ⊢
-            rw [h1, ucalls_probeAny]; exact hci
+          · split at h
+            · split at h <;> cases h
+            · cases h
+            · split at h <;> cases h
+            · rename_i ip tp2 mx2 k3 hcl
+              have h1 := ucalls_climb _ _ _ _ _ _ _ _ _ _ _ hcl
+              rw [ih _ _ _ _ _ h, ucalls_enterDown]
+              simp only at h1 ⊢
+              rw [h1, ucalls_probeAny]; exact hci
 
 theorem ucalls_trans (c : Chart) (tp0 : List St) (mx : Nat) (T S : St) (k : Ctx) (o : TOut)
     (h : trans_ c tp0 mx T S k = .ok o) : ucalls o.k.log = ucalls k.log := by
@@ -1003,7 +1006,7 @@ def qc1 : QChart :=
       else if s = [3, 1] ∧ sig = .entry then [.scribble 7]
       else [] }
 
-def g1 : Cfg := { resync := true, drillGuard := true, initGuard := true }
+def g1 : Cfg := { resync := true, drillGuard := true, initGuard := true, superGuard := true }
 
 /-- the real ring sizes are far larger than anything the fixture writes -/
 def caps1 : Caps := { rtc := 250, spy := 500, trc := 500 }
